@@ -188,6 +188,27 @@ CLAIMED["C18"] = (
     "decided by the multiset comparison of the correspondence; label wording, colours other than the highlight, "
     "fonts are not part of the property.")
 
+CLAIMED["C05"] = (
+    "Theorems (Properties/C05.v): the model has ONE activation sequence, candidate loop and drain loop for both "
+    "engines, so every theorem of C01-C04, C11, C14 holds for rm_async = true as well; the three places where "
+    "the async engine differs are characterised: for guards that are pure and independent of how often they are "
+    "asked the sync executor (stop at first failure) and the async executor (all guards started and awaited) "
+    "compute the same conjunction; a group returns only when every admitted callback has completed; the async "
+    "constructor defers activation by leaving exactly the __initial__ trigger at the head of the queue; the "
+    "loop ends idle on every path.  That the real AsyncEngine follows this model is decided by the twin "
+    "correspondence: every base scenario is run as sync twin and with all / one / a random subset of its "
+    "callbacks as coroutine functions (a third of their scripts really suspend), each under three drivers "
+    "(plain calls without a loop, the whole history awaited in a running loop, one OS thread per operation), "
+    "and each run is compared in coqc with the model of that variant on states, callback phases and arguments, "
+    "results and exceptions; additionally no coroutine may be left un-awaited and no callback may begin while "
+    "a callback of another phase is still running.  Probes: boolean guard expressions with coroutine operands "
+    "in every position, and a plain callback sending from the async engine (known findings D10, D18).",
+    "Coq proof (shared engine model; guard-executor equivalence; deferred activation) + twin differential correspondence under three drivers",
+    "DESIGN.md 5 C05",
+    "Partial: the lifetime of sibling tasks inside asyncio.gather / as_completed after a failure, and real "
+    "scheduler interleavings beyond sleep(0) suspension, are not modelled; asyncio itself is trusted.  Listeners "
+    "attached after construction are C12's subject (D11).")
+
 PENDING_REASON = "check not built yet in this session (work in progress; see DESIGN.md 9 for the order of work)"
 
 ALL = [f"C{i:02d}" for i in range(1, 19)]
